@@ -346,6 +346,12 @@ def main_script(cfg, r, pts, tier):
     for j, (a, b) in enumerate(pairs):
         for t in ([ts[j % len(ts)], r.choice(ts)] if j < 6 else [r.choice(ts)]):
             lines.append("interp %s %s %s" % (st(a), st(b), f2bits(t)))
+    if cfg["space"] == "tb":
+        # picks of index 0 (one-element geodesics): the fix-up projection then works on geodesic[0] itself
+        for _ in range(3 * q):
+            a = pick()
+            b = near(a, cfg["delta"]) or a
+            lines.append("interp %s %s %s" % (st(a), st(b), f2bits(r.choice(ts))))
     # geodesicInterpolate on given lists (ambient distances only): random, duplicates, singletons, exact fractions
     for j in range(8 * q):
         k = r.choice([1, 1, 2, 2, 3, 4, 7])
@@ -378,12 +384,30 @@ def main_script(cfg, r, pts, tier):
 
 
 # ====================================================================================== spec oracle
-def classify_sample(cfg, s, evs):
-    """why a sampler result is off the manifold"""
-    ps = [e for e in evs if e[0] == "P"]
-    if ps and ps[-1][2] == "0":
-        return "project-failed"
-    if any(v == cfg["lo"] or v == cfg["hi"] for v in s):
+def classify_sample(cfg, s, evs, t):
+    """why a sampler result is off the manifold.  `bounds-clamped` (F71) only when the state *before* enforceBounds
+    is known from the recorded calls, was a successful projection (or the fallback state) and differs from the
+    result exactly by the clamping; `project-failed` (F10) only for the Projected sampler's ignored verdict."""
+    def clamp(x):
+        return [cfg["hi"] if v > cfg["hi"] else (cfg["lo"] if v < cfg["lo"] else v) for v in x]
+    raw = None
+    if cfg["space"] == "proj":
+        ps = [e for e in evs if e[0] == "P"]
+        if ps and ps[-1][2] == "0":
+            return "project-failed"
+        if ps:
+            raw = fl(ps[-1][3])
+    else:
+        psis = [e for e in evs if e[0] == "PSI"]
+        if psis and psis[-1][3] == "1":
+            raw = fl(psis[-1][4])
+        elif t[1] in ("n", "g"):
+            raw = fl(t[2:2 + cfg["n"]])                  # fallback: near / mean
+        else:
+            scs = [e for e in evs if e[0] == "SC"]
+            if scs:
+                raw = fl(scs[-1][2])                       # fallback: origin of the last sampled chart
+    if raw is not None and clamp(raw) == s and raw != s and satisfied(cfg, raw):
         return "bounds-clamped"
     return "other"
 
@@ -409,7 +433,7 @@ def oracle_line(cfg, op, out):
     if t[0] == "sample":
         s = fl(head[1:1 + n])
         if not satisfied(cfg, s):
-            fails.append(("sampler", classify_sample(cfg, s, evs),
+            fails.append(("sampler", classify_sample(cfg, s, evs, t),
                           "sampler returned a state with residual %.3g > tolerance %.3g" % (math.sqrt(resid_sq(cfg["con"], s)), cfg["tol"])))
     elif t[0] == "geo":
         ok = head[0] == "ok=1"
@@ -437,7 +461,14 @@ def oracle_line(cfg, op, out):
         r = fl(head[1:1 + n])
         frm = fl(t[1:1 + n])
         if satisfied(cfg, frm) and not satisfied(cfg, r):
-            fails.append(("interp", "off-manifold", "interpolate returned a state with residual %.3g > tolerance %.3g" % (math.sqrt(resid_sq(cfg["con"], r)), cfg["tol"])))
+            cls = "off-manifold"
+            psis = [e for e in evs if e[0] == "PSI"]
+            gs = [e for e in evs if e[0] == "G"]
+            if space == "tb" and psis and psis[-1][3] == "0" and gs and gs[-1][2] == "1" and head[1:1 + n] != t[1:1 + n]:
+                # TangentBundle's fix-up projection failed and yet something other than `from` came back:
+                # geodesic[0] had been overwritten in place by that failed projection (F74)
+                cls = "tb-alias-failed-fixup"
+            fails.append(("interp", cls, "interpolate returned a state with residual %.3g > tolerance %.3g" % (math.sqrt(resid_sq(cfg["con"], r)), cfg["tol"])))
     elif t[0] == "gi":
         k = int(t[2])
         idx = int(head[0][4:])
